@@ -123,7 +123,7 @@ def wavStep (st : WavState) (tok : List String) : Option (WavState × String) :=
       let codes ← if codes == "-" then some [] else codesOfHexChars (2 * f.bytes) n codes.toList
       let bs := encode ⟨f, ch, rate⟩ codes
       setFile st bs true s!"bytes={hexOfBytes bs} "
-  | ["raw", hex] => do
+  | "raw" :: hex :: _ => do   -- (an oracle's replay line carries a ` :: explanation` tail)
       let bs ← bytesOfHex hex
       setFile st bs true ""
   | ["mut.xor", pos, mask] => do
